@@ -906,7 +906,7 @@ func TestCallTriples(t *testing.T) {
 					sc := seqCase{Recv: recv, Steps: []seqStep{a, b, c}}
 					fails := checkSequenceOfCalls(sc)
 					total++
-					if len(fails) > 0 || total%500009 == 0 {
+					if len(fails) > 0 || total%500009 == 1 {
 						h.R.Case(t, "sequence", sc.String(), sc, []string{"call-triple", "recv:" + h.TypeName(pool[recv].mk())}, true, fails)
 					}
 				}
